@@ -88,9 +88,38 @@ def instantiate(rng, a):
     return out
 
 
+def switch_history():
+    """a legal earlier use of the process: every character that printing escapes is printed once while the documented module-level switch
+    constants.ignore_url_escape_characters is on; the switch is then put back.  Nothing of it may outlast the restore (round 9: a memo did)."""
+    from gffutils import constants
+    from gffutils.feature import Feature
+    old = constants.ignore_url_escape_characters
+    constants.ignore_url_escape_characters = True
+    try:
+        chars = "".join(chr(i) for i in range(32)) + "\x7f%;=&,"
+        str(Feature(seqid="chr1", source="s", featuretype="gene", start=1, end=9, attributes={"ID": [chars], "Note": list(chars)},
+                    dialect=copy.deepcopy(__import__("gffutils").constants.dialect), keep_order=True))
+    finally:
+        constants.ignore_url_escape_characters = old
+
+
+def _after_history(pairs):
+    core.assert_repo()
+    switch_history()
+    return [lossless_on_code(a, d) for a, d in pairs]
+
+
+def in_fresh_process_after_switch_history(pairs):
+    import multiprocessing as mp
+    with mp.get_context("spawn").Pool(1) as pool:
+        return pool.apply(_after_history, (pairs,))
+
+
 def judge_ll(ctx, rec, a, d, res, variant):
     """rec: the spec's record for (a, d) (dom, f10 flags); res: what the code did"""
     case = {"a": a, "d": d, "variant": variant}
+    if variant.startswith("after_switch_history"):
+        case["history"] = "switch_history"
     if not rec["dom"]:
         return
     bad = None
@@ -183,6 +212,13 @@ def run(ctx):
         judge_ll(ctx, r, a2, r["d"], res2, "instantiated")
         ctx.count(("ll", r["a"], r["d"]), any(c in (37, 59, 61, 38, 44, 34, 9, 10, 13) or c >= 128 for _, vs in r["a"] for v in vs for c in v), n=2)
     ctx.traces += 2 * len(recs)
+    # the same cases once more in a process that has printed under the switch before (process-wide state left by an earlier, legal use)
+    # (a NEW process: the history has to come before the first print of the process, so this one, which has printed already, cannot be used)
+    again = ctx.rng.sample(recs, min(len(recs), 1500))
+    for r, res in zip(again, in_fresh_process_after_switch_history([(r["a"], r["d"]) for r in again])):
+        judge_ll(ctx, r, r["a"], r["d"], res, "after_switch_history")
+    ctx.traces += len(again)
+    ctx.extra["cases_after_switch_history"] = len(again)
     ctx.sample({"mapping": A.real_attrs(recs[0]["a"]), "dialect": recs[0]["d"], "printed_attribute_column": dec(recs[0]["t"])})
     # ---------- D2 lossless: random mappings, classified by the spec
     seeds = random_ll_seeds(ctx.rng, 20000 if thorough else 2500)
@@ -231,6 +267,10 @@ def replay(ctx, rec):
             json.dump({"wordna": [], "seeds": [{"n": 0, "a": c["a"], "d": c["d"]}]}, f)
         gen = ctx.tlc("Gen_Attr", GEN_CFG, env={"SEED_FILE": p, "MODE": "ll"}, workers=1)
         n0 = len(ctx.violations)
-        judge_ll(ctx, gen.json[0], c["a"], c["d"], lossless_on_code(c["a"], c["d"]), "replay")
+        if c.get("history") == "switch_history":
+            res = in_fresh_process_after_switch_history([(c["a"], c["d"])])[0]
+        else:
+            res = lossless_on_code(c["a"], c["d"])
+        judge_ll(ctx, gen.json[0], c["a"], c["d"], res, "replay")
         return len(ctx.violations) > n0
     raise core.CannotReplay("the case could not be reconstructed from the model")
